@@ -587,7 +587,7 @@ pub fn run(args: &Args) {
         300,
     );
     let rt = tokio::runtime::Builder::new_current_thread().enable_all().build().unwrap();
-    let streams = args.n(3_000, 250_000);
+    let streams = args.n(3_000, 600_000);
     let mut cx = Ctx { rt: &rt, rep: &mut rep, seed: args.seed };
     for i in 0..streams {
         let mut rng = Rng::fork(args.seed, i);
